@@ -28,6 +28,21 @@ theorem segTotal_single (s : Seg) : segTotal [s] = s.count := by simp [segTotal]
 
 /-! ## the decoder on a table `F ++ s :: rest` -/
 
+/-- the first pass of `translate_absolute_line` goes on exactly while MORE lines are left than the segment has
+    (guard transcribed from the source: `NV.Gen.C18.pass1Continues`) -/
+theorem pass1Continues_iff (t : Int) (c : Nat) : NV.Gen.C18.pass1Continues t c = true ↔ t > (c : Int) := by
+  simp [NV.Gen.C18.pass1Continues]
+
+theorem pass1_cons_stop (s : Seg) (rest : List Seg) (t : Int) (P : List Seg) (h : ¬ t > (s.count : Int)) :
+    pass1 (s :: rest) t P = some (P, t, s.file) := by
+  have : ¬ ((s.count : Int) < t) := by omega
+  simp [pass1, NV.Gen.C18.pass1Continues, this]
+
+theorem pass1_cons_go (s b : Seg) (rest : List Seg) (t : Int) (P : List Seg) (h : t > (s.count : Int)) :
+    pass1 (s :: b :: rest) t P = pass1 (b :: rest) (t - s.count) (P ++ [s]) := by
+  have : (s.count : Int) < t := by omega
+  simp [pass1, NV.Gen.C18.pass1Continues, this]
+
 theorem pass1_skip (F : List Seg) : ∀ (s : Seg) (rest : List Seg) (t : Int) (P : List Seg), t > segTotal F →
     pass1 (F ++ s :: rest) t P = pass1 (s :: rest) (t - segTotal F) (P ++ F) := by
   induction F with
@@ -38,15 +53,14 @@ theorem pass1_skip (F : List Seg) : ∀ (s : Seg) (rest : List Seg) (t : Int) (P
     have hsplit : segTotal (a :: F') = a.count + segTotal F' := by simp [segTotal]
     have h1 : t > (a.count : Int) := by omega
     have hne : F' ++ s :: rest ≠ [] := by simp
-    simp only [List.cons_append, pass1, h1, if_true]
+    simp only [List.cons_append]
     cases hl : F' ++ s :: rest with
     | nil => exact absurd hl hne
     | cons b l' =>
-      rw [← hl, ih s rest (t - a.count) (P ++ [a]) (by omega)]
-      simp only [List.append_assoc, List.singleton_append]
+      rw [pass1_cons_go a b l' t P h1, ← hl, ih s rest (t - a.count) (P ++ [a]) (by omega)]
       have harith : t - (a.count : Int) - segTotal F' = t - segTotal (a :: F') := by omega
       rw [harith]
-      simp [pass1]
+      simp only [List.append_assoc, List.singleton_append]
 
 theorem pass2_eq (P : List Seg) (f : Nat) : ∀ t : Int, pass2 P f t = t + segOf P f := by
   unfold pass2
@@ -68,7 +82,8 @@ theorem translateAbs_at (F : List Seg) (s : Seg) (rest : List Seg) (abs : Int)
   unfold translateAbs
   rw [pass1_skip F s rest abs [] h1]
   have : ¬ (abs - segTotal F > (s.count : Int)) := by omega
-  simp only [pass1, this, if_false, List.nil_append]
+  rw [pass1_cons_stop s rest _ _ this]
+  simp only [List.nil_append]
   rw [pass2_eq]
 
 /-! ## the lexer bookkeeping -/
